@@ -44,6 +44,9 @@ def judge(hist: dict, obs: dict) -> list[tuple[dict, str]]:
     if pr:
         if not pr["device_created"] or pr["temperature"] != 20.69:
             out.append(({"clause": "stopped-tracking"}, f"probe I|30C9 for a new sensor: {pr}"))
+        kn = pr.get("known")
+        if kn and kn["after"] != 20.69:
+            out.append(({"clause": "stopped-tracking-known"}, f"a device of the history that was being tracked ignores its next I|30C9: {kn}"))
         if pr["frames_written"] < 1:
             out.append(({"clause": "cannot-send"}, f"probe command did not reach the port: {pr}"))
     fe = obs.get("final_engine_state")
@@ -82,7 +85,8 @@ def explore(job: dict) -> dict:
         col.case(nt=jdump(hist["frames"]) + jdump(hist["ops"]) if hist["mutations"] and mid else None,
                  classes=["hist", f"sys:{hist['system'][:12]}", "eavesdrop:on" if hist["eavesdrop"] else "eavesdrop:off",
                           "discovery:on" if hist["discovery"] else "discovery:off", "mutated" if hist["mutations"] else "pristine-slice", "prestart-ops" if hist.get("prestart") else "no-prestart-ops",
-                          "has-restore" if any("restore" in o["kind"] for o in hist["ops"]) else "no-restore"]
+                          "has-restore" if any("restore" in o["kind"] for o in hist["ops"]) else "no-restore",
+                          "probe-known-device" if (obs.get("probe") or {}).get("known") else "probe-new-device-only"]
                  + [f"mut:{m}" for m in set(hist["mutations"])],
                  sample={"system": hist["system"], "n": len(hist["frames"]), "mutations": hist["mutations"], "ops": hist["ops"],
                          "n_devices": obs.get("n_devices")})
